@@ -52,8 +52,10 @@ def _emd_modules():
     return out
 
 
-def _data_globals():
-    """(module, name, value) for every data global of the emd package."""
+def _data_globals(include_seams=False):
+    """(module, name, value) for every data global of the emd package.  Objects owned by the simulator (pools,
+    proxies) are left out of deep snapshots but kept in by-reference ones, so that swapping a worker's state in
+    and out never loses a global that holds one of them."""
     out = []
     for m in _emd_modules():
         for k in sorted(vars(m)):
@@ -64,7 +66,7 @@ def _data_globals():
                 continue
             if callable(v) and hasattr(v, '__wrapped__'):
                 continue
-            if getattr(v, '_simverif_seam', False):
+            if getattr(v, '_simverif_seam', False) and not include_seams:
                 continue
             out.append((m, k, v))
     return out
@@ -107,7 +109,7 @@ class ProcState:
     @classmethod
     def capture(cls, deep):
         globs = []
-        for m, k, v in _data_globals():
+        for m, k, v in _data_globals(include_seams=not deep):
             if deep:
                 try:
                     v = copy.deepcopy(v)
@@ -284,7 +286,16 @@ class SimPool:
         p.free_at = w.now
         w.log('pool.worker', pool=self.id, ident=ident, start=self.start)
         if self.initializer is not None:
-            self._in_worker(p, lambda: self.initializer(*self.initargs))
+            # the child sees the initializer arguments as they are at this moment: a memory snapshot under fork,
+            # a pickled copy under spawn - never the parent's live objects
+            try:
+                if self.start == 'fork':
+                    args = copy.deepcopy(self.initargs)
+                else:
+                    args = pickle.loads(pickle.dumps(self.initargs, protocol=pickle.HIGHEST_PROTOCOL))
+            except Exception:
+                args = self.initargs
+            self._in_worker(p, lambda: self.initializer(*args))
         return p
 
     def _in_worker(self, p, thunk):
